@@ -63,6 +63,9 @@ MONITORS = [mon_valid]
 XPROC_EVERY = 2
 
 
+_VOLATILE_ID = re.compile(r"[0-9a-f]{8}-[0-9a-f]{4}-[0-9a-f]{4}-[0-9a-f]{4}-[0-9a-f]{12}")
+
+
 def finale(U, interp, env, mem, res):
     """(e) another process: save a document, validate it here and in two other interpreters
     that run under other hash seeds (long-lived helpers of this worker, simkit.xproc)."""
@@ -81,8 +84,19 @@ def finale(U, interp, env, mem, res):
         res.stats["xproc_samples"] = res.stats.get("xproc_samples", 0) + 1
         if any("error" in o for o in outs):
             raise RuntimeError("xproc helper: %r" % (outs,))
-        a, b = outs[0]["issues"], outs[1]["issues"]
-        mine = json.loads(json.dumps(here))
+        # an object the file gives no id or name gets a fresh uuid at every load: such ids (the
+        # ones the file does not hold) say nothing about the validation
+        with open(path, "r", encoding="utf-8", errors="replace") as fobj:
+            stored = fobj.read()
+
+        def settle(issues):
+            text = json.dumps(issues)
+            for uid in set(_VOLATILE_ID.findall(text)):
+                if uid not in stored:
+                    text = text.replace(uid, "<id given at load>")
+            return sorted(json.loads(text), key=repr)
+        a, b = settle(outs[0]["issues"]), settle(outs[1]["issues"])
+        mine = settle(json.loads(json.dumps(here)))
         if a != b or mine != a:
             diff = [i for i in a if i not in b] + [i for i in b if i not in a] + \
                 [i for i in mine if i not in a]
